@@ -1,5 +1,31 @@
-// stub: check for C07 not built yet
+use chan::e2::{self, Prop};
+use chan::e7;
+use vcore::Level;
+
+const RULE: &str = "same history generator as C06 with flush requests (callback, async with timeout 0|inf, nested from inside callbacks) at arbitrary points and several concurrent flushers; small-scope exhaustive mode; E7 with blocking_flush (sync and tokio entry points) racing senders. Oracle: at the instant a flush completes (callback runs / future resolves true / blocking call returns true) every item whose send returned before the flush was requested is truncated or finalised (the attempt that contained it has returned and it is not part of a remainder that will be retried) - never queued, in flight or awaiting retry. Non-trivial = flush requested while a batch is in flight, during a retry wait, or with pending items (E7: a flush that returned true with >=1 batch).";
+
 fn main() {
-    eprintln!("C07: check not built yet");
-    std::process::exit(2);
+    vcore::run(
+        "C07",
+        Level::Exploration,
+        RULE,
+        &[
+            "E2 drives Receiver::exec, tokio::send/flush futures and all sender calls from one thread; because all state shared by the halves is behind one mutex and the receiver runs at most one critical section between two suspension points, every lock-granularity interleaving of the two-thread system corresponds to a placement of sender operations between receiver steps",
+            "the hand-off instant is observed through when_empty callbacks (documented to fire at a point where the current batch is empty) and through the processor invocation",
+            "documented defaults of emit_batcher::bounded are taken as given: at most 10 retries per batch, back-off capped at 10 s, idle wait capped at 500 ms",
+            "E7 samples OS schedules (it does not own them); its oracles are ticket-ordered history invariants that hold for every interleaving; the 30 s watchdogs are the only use of wall-clock time",
+            "condvar/oneshot wake-up paths (sync.rs, tokio.rs) are only exercised by E7, i.e. sampled",
+        ],
+        |s| {
+        s.require("flush-while-in-batch", 2000);
+        s.require("flush-during-retry-wait", 500);
+        s.require("flush-with-pending", 2000);
+        s.require("flush-completed", 5000);
+        s.require("e7:flush-true", 100);
+            s.gen("e2-random", s.n(400_000, 12_000_000), || e2::case(e2::W_C07), |c, cx| e2::check(c, Prop::C07, cx));
+            let max_len = if s.quick() { 6 } else { 7 };
+            s.enumerate("e2-small-scope", e2::small_cases(max_len, &[1, 2]), |c, cx| e2::check(&c.to_case(), Prop::C07, cx));
+            s.gen("e7-os-threads", s.n(3_000, 150_000), || e7::workload(1), |c, cx| e7::check(c, Prop::C07, cx));
+        },
+    )
 }
